@@ -4,7 +4,6 @@ import (
 	"encoding/json"
 	"fmt"
 	"strings"
-	"time"
 
 	"gitee.com/xuesongtao/protoc-go-valid/valid"
 	"vmon/internal/core"
@@ -188,7 +187,6 @@ func init() {
 			"random: long sequences on capacities {0,1,2,3,4,7,64,512} with key sets 1.2-3x capacity and keys of several dynamic types. distinct = distinct (capacity, op sequence) with at least one Store; non-trivial = sequence contains a Store",
 		Exhaustive: func(t core.Tier) bool { return true },
 		Shards:     func(t core.Tier) int { return 16 },
-		Timeout:    func(t core.Tier) time.Duration { return 30 * time.Minute },
 		Run:        runC09,
 		Check: func(r *core.Result, t core.Tier) {
 			need := map[string]int64{"rebuild_crossings": 100, "evictions_recency_decisive": 10000, "restores_of_live_key": 10000, "exhaustive_sequences": 1}
